@@ -3,6 +3,7 @@ import Adb.Model.Removeparam
 import Driver.Parse
 import Adb.Model.History
 import Adb.Model.RegexCache
+import Adb.Model.Scriptlet
 /-
   One-line-in / one-line-out driver.  Every answer has the form  `M=<model> S=<spec> D=<0|1>`:
   the output of the model that mirrors the code, the output of the reference semantics, and whether
@@ -86,6 +87,26 @@ def step (line : String) : String :=
       let d := Spec.caseOK rules q && isAsciiStr q.url
       ans (showSet (b.csp? q)) (showSet (Spec.csp? rules (dedupS tags) q)) d
     | _, _, _ => "bad-op"
+  -- C18: permission check on all (required, granted) pairs
+  | ["inj", r, g] =>
+    match r.toNat?, g.toNat? with
+    | some r, some g =>
+      let m := Scriptlet.isInjectableBy (BitVec.ofNat 8 r) (BitVec.ofNat 8 g)
+      let s := (List.range 8).all (fun i => !(r.testBit i) || g.testBit i)
+      ans (showBool m) (showBool s) true
+    | _, _ => "bad-op"
+  -- C18: argument encoding
+  | ["strq", q, a] =>
+    match hexToBytes a.toList with
+    | some bs =>
+      let arg := bs.map (·.toNat)
+      let quoted := q == "1"
+      let out := Scriptlet.stringify quoted arg
+      let hexOf (l : List Nat) := bytesToHex (l.map Nat.toUInt8)
+      let lit := if quoted then out else 34 :: out ++ [34]
+      let s := if Scriptlet.unquote lit == some arg then hexOf out else "does-not-parse-back"
+      ans (hexOf out) s true
+    | none => "bad-op"
   | "rmseq" :: ops =>
     match ops.foldlM rmOp (({} : Cache.RM), [], [], [], true) with
     | some (_, _, outs, specs, noReuse) =>
